@@ -848,6 +848,7 @@ type hfRoot struct{ dir, fn string }
 func genHandlerFacts(repo, out string, args []string) error {
 	apps := filepath.Join(repo, "go/consensus/cometbft/apps")
 	roots := []hfRoot{
+		{"staking/state", "AuthenticateAndPayFees"}, {"staking", "PostExecuteTx"},
 		{"staking", "ExecuteTx"}, {"registry", "ExecuteTx"}, {"governance", "ExecuteTx"},
 		{"roothash", "ExecuteTx"}, {"vault", "ExecuteTx"}, {"beacon", "Application.ExecuteTx"},
 		{"beacon", "backendVRF.ExecuteTx"}, {"beacon", "backendInsecure.ExecuteTx"},
